@@ -13,13 +13,22 @@ fn parse_range() -> impl CharParser<IntRange> {
 
     let parser = start.then(end).then(step);
     parser
-        .try_map(|((start, end), step), span| match (start, end, step) {
-            (v, None, None) => Ok(IntRange::new(v, 1, 1)),
-            (v, Some(w), None) if w >= v => Ok(IntRange::new(v, w - v + 1, 1)),
-            (v, Some(w), Some(x)) if w >= v && x <= w - v && x > 0 => {
-                Ok(IntRange::new(v, w - v + 1, x))
+        .try_map(|((start, end), step), span| {
+            // `IntRange` needs its exclusive end (last value + 1) to fit into u32
+            if end.unwrap_or(start) == u32::MAX {
+                return Err(ParseError::custom(
+                    span,
+                    format!("Range values have to be smaller than {}", u32::MAX),
+                ));
             }
-            _ => Err(ParseError::custom(span, "Invalid range")),
+            match (start, end, step) {
+                (v, None, None) => Ok(IntRange::new(v, 1, 1)),
+                (v, Some(w), None) if w >= v => Ok(IntRange::new(v, w - v + 1, 1)),
+                (v, Some(w), Some(x)) if w >= v && x <= w - v && x > 0 => {
+                    Ok(IntRange::new(v, w - v + 1, x))
+                }
+                _ => Err(ParseError::custom(span, "Invalid range")),
+            }
         })
         .labelled("Integer range")
 }
